@@ -157,8 +157,37 @@ def check_typed(ctx, rng):
     return text
 
 
+WHERE_CLOSERS = {'GROUP BY', 'ORDER BY', 'LIMIT', 'UNION', 'UNION ALL', 'EXCEPT', 'HAVING', 'RETURNING', 'INTO'}
+
+
+def where_sweep(ctx):
+    """'the Where node spans from WHERE up to, not including, the next GROUP BY, ORDER BY, LIMIT, UNION, EXCEPT, HAVING, RETURNING or INTO …
+    or else to the end': WHERE followed by EVERY dictionary word — exactly the listed words end the clause, no other word does"""
+    import props.C18 as C18
+    rng = ctx.rng
+    words = C18.all_dictionary_words()
+    if ctx.quick():
+        words = [w for w in words if rng.random() < 0.3]
+    words += ['GROUP BY', 'ORDER BY', 'UNION ALL', 'LIMIT', 'UNION', 'EXCEPT', 'HAVING', 'RETURNING', 'INTO', 'FROM', 'JOIN', 'SELECT', 'SET', 'VALUES', 'ON', 'USING']
+    for w in dict.fromkeys(words):
+        if w in ('WHERE', 'BEGIN', 'END', 'GO', 'CASE', 'IF', 'FOR', 'FOREACH', 'LOOP', 'WHILE'):
+            continue     # a second WHERE starts its own node; block keywords open other groups first
+        spelled = w if rng.random() < 0.5 else w.lower()
+        for text, close in (('select x from t where a = 1 %s y1' % spelled, ''), ('select * from (select x from t where a = 1 %s y1) s' % spelled, ')')):
+            ctx.evaluations += 1
+            try:
+                ws_ = [str(n) for n in nodes_of(sqlparse.parse(text)[0], sql.Where)]
+            except Exception as e:
+                ctx.fail('parse raised ' + type(e).__name__, text, observed=repr(e), required='tree')
+                continue
+            want = 'where a = 1 ' if w in WHERE_CLOSERS else 'where a = 1 %s y1' % spelled
+            if want not in ws_:
+                ctx.fail('Where extent (dictionary sweep): the clause %s at this word' % ('must end' if w in WHERE_CLOSERS else 'must not end'), text, observed=ws_, required=want)
+
+
 def run(ctx):
     rng = ctx.rng
+    where_sweep(ctx)
     texts = []
     fns = [check_where, check_list, check_call, check_case, check_typed]
     for it in range(ctx.n(1500, 30000)):
